@@ -1,5 +1,6 @@
 """C11 — documentation comments attach to the declaration they adjoin, and only to it."""
 import dataclasses
+import re
 
 import pcommon
 from cxxheaderparser import types as T
@@ -130,7 +131,8 @@ class Gen:
                     self.expect[nm2] = None  # later declarators never get the text
                     if "// plain" in t and not t.endswith("\n"):
                         t += "\n"  # known finding C11-later-declarator: the scan for the later declarator runs on
-                    out.append(a + indent + "int %s%s, *%s;%s\n" % (nm, init, nm2, t))
+                    d2 = r.choice(["*%s", "*%s", "%s{2}", "%s = {1, 2}", "%s[2] = {1}", "%s = (3)"]) if not in_class else r.choice(["*%s", "%s{2}", "%s = {1, 2}", "%s : 2"])
+                    out.append(a + indent + "int %s%s, %s;%s\n" % (nm, init, d2 % nm2, t))
                 else:
                     out.append(a + indent + "int %s%s;%s\n" % (nm, init, t))
             elif k < 0.36:
@@ -158,13 +160,22 @@ class Gen:
                     vn = self.name("k")
                     va, vt = self.doc(vn, True, indent + "  ")
                     comma = "," if i < nvals - 1 or r.random() < 0.5 else ""
-                    vals.append(va + indent + "  %s%s%s%s\n" % (vn, r.choice(["", " = 3"]), comma, vt))
+                    vals.append(va + indent + "  %s%s%s%s\n" % (vn, r.choice(["", " = 3", " = int{1}", " = (1 + 2)", " = T{}.v", " = sizeof(S[2])", " = f({1, 2})"]), comma, vt))
                 tail = self.dangling(indent + "  ") if r.random() < 0.2 and comma else ""
                 out.append(a + indent + "enum %s%s {\n%s%s%s};%s\n" % (r.choice(["", "class "]), nm, "".join(vals), tail, indent, t))
             elif k < 0.6:
                 nm = self.name("F")
                 a, t = self.doc(nm, False, indent)
                 out.append(a + indent + "%s %s;%s\n" % (r.choice(["struct", "class", "enum class"]), nm, t))
+            elif k < 0.62 and in_class:
+                # an anonymous union / struct member: a doc block above it belongs to the anonymous type and to nothing else
+                # (the unnamed member the parser reports for it has no documentation of its own)
+                nm = self.name("an")
+                a, _t = self.doc(nm, False, indent)
+                del self.expect[nm]
+                inner = self.name("m")
+                self.expect[inner] = None
+                out.append(a + indent + "%s {\n%s  int %s;\n%s};\n" % (r.choice(["union", "struct"]), indent, inner, indent))
             elif k < 0.64 and in_class:
                 nm = self.name("G")
                 a, t = self.doc(nm, False, indent)
@@ -232,7 +243,7 @@ def collect_dox(obj, out):
         elif isinstance(obj, T.ForwardDecl):
             nm = obj.typename.segments[-1].name
         elif isinstance(obj, T.ClassDecl):
-            nm = obj.typename.segments[-1].name
+            nm = getattr(obj.typename.segments[-1], "name", None)
         elif isinstance(obj, T.UsingDecl):
             nm = obj.typename.segments[-1].name
         elif isinstance(obj, T.Concept):
@@ -253,6 +264,21 @@ def collect_dox(obj, out):
             collect_dox(x, out)
 
 
+def all_dox(obj, out):
+    """(kind, doxygen) of EVERY object of the result that carries documentation"""
+    if dataclasses.is_dataclass(obj):
+        if getattr(obj, "doxygen", None):
+            out.append((type(obj).__name__, obj.doxygen))
+        for f in dataclasses.fields(obj):
+            all_dox(getattr(obj, f.name), out)
+    elif isinstance(obj, list):
+        for x in obj:
+            all_dox(x, out)
+    elif isinstance(obj, dict):
+        for x in obj.values():
+            all_dox(x, out)
+
+
 def run(ctx):
     rng = ctx.rng("doc")
     fails = []
@@ -271,6 +297,17 @@ def run(ctx):
             continue
         got = {}
         collect_dox(d, got)
+        # every generated comment carries a unique word: no comment may be attributed to two declarations
+        owners = {}
+        every = []
+        all_dox(d, every)
+        for kind, dx in every:
+            for wd in set(re.findall(r"\bdoc\d+\b", dx)):
+                owners.setdefault(wd, []).append(kind)
+        dup = sorted((wd, ks) for wd, ks in owners.items() if len(ks) > 1)
+        if dup:
+            fails.append({"input": text, "diff": "the comment with the word %s is attributed to %d declarations (%s)" % (dup[0][0], len(dup[0][1]), ", ".join(dup[0][1]))})
+            continue
         for nm, exp in g.expect.items():
             if nm not in got:
                 fails.append({"input": text, "diff": "declaration %s not found in the result" % nm})
